@@ -17,8 +17,9 @@ type profile struct {
 	// the generator stays clear of them so that the rest of the encoder is
 	// explored without being masked.
 	allowKnown bool
-	// allowUnsupported: compositions the encoder refuses loudly (container directly
-	// inside a container, nil pointer to a container).
+	// allowUnsupported: no longer used (containers of containers and nil pointers to
+	// containers are inside the universe and always generated); the draw is kept so
+	// that the other knobs keep their PRNG positions.
 	allowUnsupported bool
 	// allowOutside: values outside the stated universe (unregistered struct, chan,
 	// func, complex, NaN/Inf).
